@@ -134,6 +134,18 @@ def c08(tier, seed):
                                       "actions are pairwise distinct weights so that any drop, duplication or reordering "
                                       "shows in the executed allocation"]
     run_models(rep, c08_models(tier), clauses_of("C08"))
+    # a user-defined space whose actions are CHANGES of the portfolio weights (EnvFull.tla, Relative): what is executed between
+    # t and t' is sized on the account valued at the last quotes stamped <= t + latency, like its price
+    from . import envfull_check as ef
+    from .tlagen import Rec
+    from fractions import Fraction as F
+    grid = ef.G[:4]
+    ev = ef.bars(grid, {"S1": [8, 8, 16, 8], "F4": [8, 8, 8, 8]}, 0)
+    ev += [Rec(t=grid[1] + L, kind="q", c="S1", bid=16, ask=16), Rec(t=grid[2] + L + 1, kind="q", c="S1", bid=8, ask=8)]
+    tg = [{"S1": F(1, 2)}, {"S1": F(1, 4)}, {"S1": F(-1, 4), "F4": F(1, 4)}, {}]
+    m = ef.full_model("weight-changes", ["S1", "F4"], ["S1", "F4"], grid, ev, tg, lats=(0, L), delays=(0, 1), fees="free",
+                      maxsteps=3, relative=True, invariants=["LedgerReplay"])
+    ef.run_models(rep, [m], {"pos", "track_trades"})
     return rep.finish()
 
 
